@@ -423,6 +423,9 @@ DATELIKE = ['2100-02-29', '1900-02-29', '2200-02-29T00:00:00Z', '2024-02-30', '2
             '\uff12\uff10\uff12\uff12-\uff10\uff18-\uff12\uff19', '2022-08-2\u0669', '2022-08-29T15:08:00+0\uff15:30', '2022-08-2\uff19T15:08:00Z', '2022\u201308\u201329']
 
 
+WORDLIKE = [' null', 'null ', ' null ', 'Null', 'NULL', 'nulls', 'null.', ' true', 'false ', 'True', 'FALSE', 'nu ll', 'null\t']
+
+
 def csv_quote(s):
     if s == '':
         return s
@@ -462,7 +465,8 @@ def gen_csv(rnd):
                 x = rdt()
                 r.append(datetime.datetime(x.year, x.month, x.day))
             elif t == 'str':
-                r.append(rstr())
+                # (strings that differ from the words null / true / false only by blanks or letter case are strings)
+                r.append(rnd.choice(WORDLIKE) if rnd.random() < 0.12 else rstr())
             else:
                 r.append(rnd.choice(DATELIKE))
         rows.append(r)
@@ -593,8 +597,14 @@ def run_shard(ctx, spec):
             rows = table(rnd, numeric=True)
             cats = rnd.choice([None, ['a'], ['a', 'n'], ['b']])
             measures = [{'field': 'm', 'function': rnd.choice(['count', 'sum', 'min', 'max', 'average', 'stddev'])}]
+            taken = set(cats or []) | {'m'}
+            if rnd.random() < 0.3:
+                # the first measure is published under a name of its own (any string that no category or other measure uses - the empty one included)
+                measures[0]['name'] = rnd.choice([x for x in ['', 'total', ' ', 'm', 'M', '0', 'n', 'b', 'null', '\u03a3m'] if x not in (cats or [])])
+                taken = set(cats or []) | {measures[0]['name']}
             if rnd.random() < 0.5:
-                measures.append({'field': rnd.choice(['m', 'n']), 'function': rnd.choice(['count', 'sum', 'average', 'max']), 'name': 'second'})
+                names = [x for x in ['second', 'second', '', 'n', 'm', 'a.b', '1', 'false'] if x not in taken]
+                measures.append({'field': rnd.choice(['m', 'n']), 'function': rnd.choice(['count', 'sum', 'average', 'max']), 'name': rnd.choice(names)})
             res = check_aggregate(rows, cats or [], measures)
         else:
             rows = table(rnd, rnd.randint(0, 6))
